@@ -39,7 +39,6 @@ structure CacheRec where
   st : Cache.State
   direct : Node
   failed : Bool := false
-  failedWrites : List Bytes := []
   defects : List Cache.Defect := []
   c06 : Nat := 0
   c07 : Nat := 0
@@ -74,14 +73,14 @@ def applyOp (w : World) : Backend → Op → World × Result
     | none => (w, .err)
     | some cr =>
       let s : Cache.State := { cr.st with remote := w.mem[cr.remoteStore]! }
-      let sim : Cache.Sim := { cache := s, direct := cr.direct, failed := cr.failed, failedWrites := cr.failedWrites }
+      let sim : Cache.Sim := { cache := s, direct := cr.direct, failed := cr.failed }
       let (sim', r) := sim.step (.call h op)
       let ds := Cache.defectsAt sim h op r
       let specRes : Option Result :=
         match Cache.specRef h with
         | some ref => some (MemFS.step ref sim.direct op).2
         | none => none
-      let cr := { cr with st := sim'.cache, direct := sim'.direct, failedWrites := sim'.failedWrites, defects := addDefects cr.defects ds }
+      let cr := { cr with st := sim'.cache, direct := sim'.direct, defects := addDefects cr.defects ds }
       let cr :=
         match specRes with
         | some sr =>
@@ -149,7 +148,7 @@ def command (w : World) (lookup : Nat → Option Backend) (word : String) (args 
               Cache.commitWith (shuffle seed s.remove) (shuffle (seed + 1) s.removeAll) (shuffle (seed + 2) s.mkdirAll)
                 (shuffle (seed + 3) s.write) fa s
           let fired := match fa with | some k => k < n | none => false
-          let sim : Cache.Sim := { cache := s, direct := cr.direct, failed := cr.failed, failedWrites := cr.failedWrites }
+          let sim : Cache.Sim := { cache := s, direct := cr.direct, failed := cr.failed }
           let cr := { cr with st := s', failed := !ok, defects := addDefects cr.defects (Cache.defectsAtCommit sim) }
           let cr :=
             if !ok && !fired then noteDiff cr true "commit:err"
